@@ -50,6 +50,7 @@ func init() {
 		e.RMemo()
 		e.RSym()
 		e.RSharedMapsNotReplaced()
+		e.RDeadAppend()
 		// the collapse of a selector onto one Ident (the documented exception to the inverse laws)
 		// happens for whatever the resolver classifies as a qualified identifier: the exception is
 		// only as exact as that classification
